@@ -117,7 +117,13 @@ def _set(spec, path, value):
     node[path[-1]] = value
 
 
+class PayloadEqualsExistingName(Exception):
+    """The text equals a name the template already uses in that namespace: not a text-injection case (two declarations would merge)."""
+
+
 def _rename_key(d: dict, old: str, new: str):
+    if new != old and new in d:
+        raise PayloadEqualsExistingName(new)
     items = [(new if k == old else k, v) for k, v in d.items()]
     d.clear()
     d.update(items)
@@ -320,7 +326,15 @@ def run_case(case: dict) -> tuple[list[Violation], bool, str]:
     text = PLACES[place](payload)
     spec = template()
     apply, semantic = POSITIONS[position]
-    apply(spec, text)
+    norm = "".join(c for c in text.lower() if c.isalnum())
+    taken = {"query_param.name": {"sort", "thingid"}, "cookie_param.name": set(), "header_param.name": set(),
+             "operationId": {"putthing", "creatething", "streamevents"}, "tag": {"events", "default"}}.get(position, set())
+    if norm in taken:
+        return [], False, "skipped_equals_existing_name"
+    try:
+        apply(spec, text)
+    except PayloadEqualsExistingName:
+        return [], False, "skipped_equals_existing_name"
     res = _gen(spec)
     viols: list[Violation] = []
     try:
